@@ -32,7 +32,15 @@ def _axis(kw, default):
     return None
 
 
+AXES = []      # (scipy routine, axis value that reached it, location) for every abstract call made during the mutator runs
+
+
+def _record_axis(name, kw, posarg=None):
+    AXES.append((name, kw.get("axis", posarg), CTX.where()))
+
+
 def m_decimate(args, kw, node):
+    _record_axis("scipy.signal.decimate", kw, args[4] if len(args) > 4 else None)
     x = num(args[0])
     q = num(args[1]) if len(args) > 1 else num(kw.get("q"))
     out = mul(x, D(p=1))
@@ -46,8 +54,10 @@ def m_decimate(args, kw, node):
     return out
 
 
-def m_same_shape(pos):
+def m_same_shape(pos, name=None, axis_pos=None):
     def f(args, kw, node):
+        if name:
+            _record_axis(name, kw, args[axis_pos] if axis_pos is not None and len(args) > axis_pos else None)
         x = num(args[pos])
         out = mul(x, D(p=1))
         if isinstance(x, Arr) and isinstance(out, Deg):
@@ -72,7 +82,8 @@ def m_deepcopy(args, kw, node):
     return cp(args[0])
 
 
-MODELS = {"scipy.signal.decimate": m_decimate, "scipy.signal.detrend": m_same_shape(0), "scipy.signal.sosfiltfilt": m_same_shape(1),
+MODELS = {"scipy.signal.decimate": m_decimate, "scipy.signal.detrend": m_same_shape(0, "scipy.signal.detrend", 1),
+          "scipy.signal.sosfiltfilt": m_same_shape(1, "scipy.signal.sosfiltfilt", 2),
           "copy.deepcopy": m_deepcopy}
 
 
@@ -322,44 +333,28 @@ def kwargs_rule(prog, run):
 
 
 def axis_rule(prog, run):
-    """axis reaches scipy with default 0 on every path"""
-    base = prog.cls(BASE)
-    dec = base.methods.get("_decimate_data")
-    det = base.methods.get("_detrend_data")
-    if dec is None or det is None:
-        raise AnalysisError("anchor lost: BaseSetup._decimate_data/_detrend_data")
-    def default0(fi, e):
-        x = astq.expand(fi, e)
-        if isinstance(x, ast.Constant):
-            return x.value == 0
-        if isinstance(x, ast.Call) and isinstance(x.func, ast.Attribute) and x.func.attr in ("pop", "get") and len(x.args) == 2 \
-                and isinstance(x.args[0], ast.Constant) and x.args[0].value == "axis":
-            return isinstance(x.args[1], ast.Constant) and x.args[1].value == 0
-        return False
-    # _detrend_data: detrend(data, axis=<default 0>, ...)
-    f = rel(prog.mods[det.mod].path)
-    for c, nm in astq.calls_resolved(prog, det, lambda n: n == "scipy.signal.detrend"):
-        a = astq.kwarg(c, "axis", 1)
-        ok = a is not None and default0(det, a)
-        run.ob("R-kwargs", det.qual, "axis defaults to 0 (detrend)", ok, f"axis = `{astq.src(astq.expand(det, a)) if a is not None else 'scipy default (-1)'}`",
-               witness=astq.src(a) if a is not None else "default", file=f, node=c)
-    # callers of _decimate_data pass axis explicitly with default 0 (scipy's own default is -1: the channel axis)
-    for cq in (SINGLE, PREGER):
-        ci = prog.cls(cq)
-        for m in ci.methods.values():
-            for c, r in prog.calls_in(m):
-                if isinstance(r, FuncInfo) and r.qual == dec.qual:
-                    a = astq.kwarg(c, "axis")
-                    ok = a is not None and default0(m, a)
-                    run.ob("R-kwargs", m.qual, "axis defaults to 0 (decimate)", ok,
-                           f"axis = `{astq.src(astq.expand(m, a)) if a is not None else 'not passed: scipy.signal.decimate then works along the last (channel) axis'}`",
-                           witness=astq.src(a) if a is not None else "default", file=rel(prog.mods[m.mod].path), node=c)
-    fd = prog.func("functions.gen.filter_data")
-    for c, nm in astq.calls_resolved(prog, fd, lambda n: n == "scipy.signal.sosfiltfilt"):
-        a = astq.kwarg(c, "axis", 2)
-        ok = a is not None and isinstance(a, ast.Constant) and a.value == 0
-        run.ob("R-kwargs", fd.qual, "axis = 0 (filter)", ok, f"axis = `{astq.src(a) if a is not None else 'scipy default (-1)'}`", witness=astq.src(a) if a is not None else "default",
-               file=rel(prog.mods[fd.mod].path), node=c)
+    """axis reaches scipy as 0 on every abstract run of a mutator that the caller did not give an axis (scipy's own defaults are the
+    last axis = the channel axis).  The values are observed at the models of the three scipy routines (AXES), not read off the syntax."""
+    seen = {}
+    for name, ax, where in AXES:
+        seen.setdefault((name, where), []).append(ax)
+    if not seen:
+        run.ob("R-kwargs", "pyoma2." + BASE, "axis reaching scipy", None, "no call of scipy.signal.decimate / detrend / sosfiltfilt was reached by the abstract mutator runs")
+    for (name, where), vals in sorted(seen.items(), key=lambda kv: (kv[0][0], str(kv[0][1]))):
+        fn, line = where if isinstance(where, tuple) else (str(where), 0)
+        short = name.split(".")[-1]
+        oks = []
+        for v in vals:
+            if isinstance(v, Cst):
+                oks.append(v.v == 0)
+            elif v is None:
+                oks.append(False)          # not passed: scipy then works along the last (channel) axis
+            else:
+                oks.append(None)
+        ok = False if any(o is False for o in oks) else (None if any(o is None for o in oks) else True)
+        shown = sorted({("not passed (scipy default: last axis = channels)" if v is None else repr(v)) for v in vals})
+        f, _ = hd.loc_of(prog, fn) if hasattr(hd, "loc_of") else (None, 0)
+        run.ob("R-kwargs", fn, f"axis defaults to 0 ({short})", ok, f"axis reaching {name} at line {line}: {shown}", witness=";".join(shown), file=f, config=f"{short}@{fn.split('.')[-1]}")
 
 
 VIEW_ATTRS = {"T", "real", "imag", "flat"}
@@ -481,13 +476,14 @@ def check(prog, run):
     run.rule("R-inv", "the representation invariant holds after __init__ and is preserved by decimate/detrend/filter/rollback from an arbitrary invariant state (both setup classes)", 40)
     run.rule("R-post", "post-conditions: decimate => fs/q and count/q; detrend/filter => sampling attributes unchanged, data processed once more; rollback => initial values; add_algorithms binds current data/fs", 30)
     run.rule("R-no-alias", "initial copies are distinct objects from the user's arrays and, after rollback, from the live data", 4)
-    run.rule("R-kwargs", "explicitly forwarded keywords are popped from **kwargs; axis defaults to 0 before reaching scipy", 6)
+    run.rule("R-kwargs", "explicitly forwarded keywords are popped from **kwargs; axis defaults to 0 before reaching scipy", 3)
     run.rule("R-no-inplace", "no in-place effect on values that may alias the user's arrays / current data / initial copies; _initial_* only receive deep copies", 12)
     run.assume("degree domain: equal degrees in (s, q, n, c, p, k) are a necessary condition of the equalities of the invariant; scipy wrappers are "
                "modelled as: decimate divides the extent of its axis by q, detrend/sosfiltfilt keep the shape, each multiplies a formal history factor p; "
                "deepcopy multiplies a formal factor k")
     I = Interp(prog)
     CTX.overrides = dict(MODELS)
+    del AXES[:]
     try:
         run_single(prog, run, I)
         run_preger(prog, run, I)
